@@ -67,6 +67,15 @@ class TreeGen:
             base = "(%s) %s ({%s} != %d)" % (base, r.choice(["&", "|"]), v2, r.randint(0, 4))
         return base
 
+    def flag(self, vars_):
+        """a condition for _elif / _breakif: now and then an integer-typed 0/1 wire (a flag kept in an integer, a product of flags)
+        instead of a boolean-typed one - both positions accept it"""
+        c = self.cond(vars_)
+        if self.rnd.random() < 0.25:
+            self.kinds.add("integer-typed-condition")
+            return self.rnd.choice(["((%s) + 0)", "((%s) * 1)", "((%s) * ({a} == {a}))"]) % c
+        return c
+
     def stmts(self, depth, vars_, in_for=False):
         out = []
         for _ in range(self.rnd.randint(1, 3)):
@@ -113,7 +122,7 @@ class TreeGen:
             elifs = []
             while r.random() < (0.4 if not elifs else 0.5) and len(elifs) < 3:
                 self.kinds.add("elif" if not elifs else "several-elifs")
-                c2 = self.cond(vars_)
+                c2 = self.flag(vars_)
                 if r.random() < 0.15:
                     self.kinds.add("public-elif-condition")
                     c2 = r.choice(["1", "0", "True"])
@@ -155,7 +164,7 @@ class TreeGen:
             brk = None
             if r.random() < 0.5:
                 self.kinds.add("breakif")
-                brk = (r.randint(0, len(body)), self.cond(vars_))
+                brk = (r.randint(0, len(body)), self.flag(vars_))
                 if r.random() < 0.3:
                     self.kinds.add("breakif-public-condition")
                     brk = (brk[0], "%s == %d" % (kname, r.randint(1, 2)))
@@ -164,8 +173,9 @@ class TreeGen:
                 # `while True` with a secret break condition: the loop is opened by a public condition
                 self.kinds.add("public-loop-condition-secret-break")
                 wcond = "True"
-                if brk is None or not brk[1].count("{"):
-                    brk = (r.randint(0, len(body)), self.cond(vars_))
+                # (an integer-typed break flag in a loop opened by a public condition is refused loudly by the library -
+                # "Wrong type for if_then_else condition" -: outside what the block API accepts, not generated)
+                brk = (brk[0] if brk else r.randint(0, len(body)), self.cond(vars_))
             return ("while", wcond, body, r.randint(1, 3), kname, brk)
         self.kinds.add("for")
         self.nk += 1
@@ -177,7 +187,7 @@ class TreeGen:
         brk = None
         if r.random() < 0.35:
             self.kinds.add("breakif-in-for")
-            brk = (r.randint(0, len(body)), self.cond(vars_))
+            brk = (r.randint(0, len(body)), self.flag(vars_))
             if r.random() < 0.3:
                 self.kinds.add("breakif-public-condition")
                 brk = (brk[0], "%s >= %d" % (iname, r.randint(0, 2)))
@@ -187,8 +197,12 @@ class TreeGen:
         if r.random() < 0.15:
             # a public bound (an ordinary range) with a secret break condition
             self.kinds.add("public-loop-bound-secret-break")
-            if brk is None or not brk[1].count("{"):
-                brk = (r.randint(0, len(body)), self.cond(vars_))
+            brk = (brk[0] if brk else r.randint(0, len(body)), self.cond(vars_))
+            if r.random() < 0.3:
+                # an empty public range (`_range(0)`, `_range(2, 2)`): natively the body never runs; the library may refuse the
+                # publicly dead loop loudly ("unreachable code"), but it may not run the body
+                self.kinds.add("empty-public-range")
+                return ("for", "@pub", start or 0, body, iname, False, True, brk, start)
             return ("for", "@pub", r.randint(1, 3) + (start or 0), body, iname, False, r.random() < 0.5, brk, start)
         return ("for", r.choice(vars_), r.randint(1, 3) + (start or 0), body, iname, chk, r.random() < 0.5, brk, start)
 
@@ -463,6 +477,10 @@ def worker(job):
             if out.exc is not None and "list-length-change-in-region" in tg.kinds and isinstance(out.exc, RuntimeError) \
                     and "lists of different length" in str(out.exc):
                 R.count("list_length_change_refused_loudly")
+                R.case(cell="%s|refused" % kinds, key=key)
+                continue
+            if out.exc is not None and "empty-public-range" in tg.kinds and isinstance(out.exc, RuntimeError) and "unreachable code" in str(out.exc):
+                R.count("empty_public_range_refused_loudly")
                 R.case(cell="%s|refused" % kinds, key=key)
                 continue
             if "newvar-in-some-branches-only" in tg.kinds:
